@@ -177,6 +177,9 @@ def gen_case(world, tier, prop):
       kwargs[rng.choice(cands)] = g.value()
   init = {'btype': btype, 'fn': 'f0', 'args': args, 'kwargs': kwargs}
   m = mk({'node': init})
+  early = rng.choice(['deepcopy', 'deepcopy', 'copy', 'pickle']) if rng.random() < 0.15 else None
+  if early in ('deepcopy', 'pickle'):
+    g.shareable = []   # the constructor's values live on in the discarded original only
   max_ops = 25 if tier == 'thorough' else 14
   nops = rng.randint(1, max_ops)
   ops = []
@@ -197,7 +200,16 @@ def gen_case(world, tier, prop):
     elif r < 0.42:
       op = {'op': 'getitem', 'key': g.key(m, rng.random() < 0.5)}
     elif r < 0.56:
-      op = {'op': 'setitem', 'key': g.key(m, False), 'v': g.value()}
+      key = g.key(m, False)
+      v = None
+      if isinstance(key, int) and rng.random() < 0.2:
+        n_ = m.sv.P + len(m.tail)
+        i_ = key + n_ if key < 0 else key
+        if 0 <= i_ < m.sv.P:
+          d_ = m.sv.prefix[i_].default
+          if isinstance(d_, str):
+            v = d_   # a positional parameter explicitly set to its default
+      op = {'op': 'setitem', 'key': key, 'v': g.value() if v is None else v}
     elif r < 0.74:
       key = g.key(m, True)
       n = m.sv.P + len(m.tail)
@@ -228,7 +240,6 @@ def gen_case(world, tier, prop):
       apply_model(m, op, mk)
     except M.Invalid:
       g.shareable = snapshot  # values of a refused op never come to exist
-  early = rng.choice(['deepcopy', 'deepcopy', 'copy', 'pickle']) if rng.random() < 0.15 else None
   return {'spec': spec, 'init': init, 'ops': ops, 'early_copy': early}
 
 
